@@ -19,7 +19,7 @@ EXPLANATION = (
     "consecutive draws differ, also across the wrap; does not decide histories where an exact multiple of the period is "
     "drawn between two sends."
 )
-ASSUMPTIONS = ["a packet object is sent at most once per construction (checked for the fragment loops under C02/C04)"]
+ASSUMPTIONS = ["a packet passed to send() under a name is the object constructed where that name was last bound (no aliasing through containers)"]
 
 
 @rule(P, "D17.1", "T-PATHS", floor=3)
@@ -246,3 +246,99 @@ def d17_4(ctx):
     good = len(stores) == 1 and stores[0][0] is drv and stores[0][1].name == "__init__" and isinstance(stores[0][2].value, ast.Call) and call_name(stores[0][2].value) == "cycle"
     ctx.check(good, ckey(drv.key, "_sequence-owner"), stores[0][2] if stores else drv.node, "the generator is created once, in CIPDriver.__init__",
               f"self._sequence is assigned at {[(c.name + '.' + m.name) for c, m, n in stores]}: re-creating the generator restarts the counts on a live connection", writers=[f"{c.name}.{m.name}" for c, m, n in stores])
+
+
+def _header_exprs(n):
+    """The expressions a CFG node evaluates itself (a compound statement's node stands for its header only)."""
+    a = n.ast
+    if a is None:
+        return []
+    if isinstance(a, (ast.For, ast.AsyncFor)):
+        return []  # (the iterable has a node of its own; this node draws the next item and binds the target)
+    if isinstance(a, (ast.With, ast.AsyncWith)):
+        return [i.context_expr for i in a.items]
+    if isinstance(a, (ast.If, ast.While)):
+        return [a.test]
+    if isinstance(a, ast.Try):
+        return []
+    return [a]
+
+
+def _binds(n, name):
+    a = n.ast
+    tgts = []
+    if isinstance(a, ast.Assign):
+        tgts = a.targets
+    elif isinstance(a, (ast.AnnAssign, ast.AugAssign)):
+        tgts = [a.target]
+    elif isinstance(a, (ast.For, ast.AsyncFor)):
+        tgts = [a.target]
+    elif isinstance(a, (ast.With, ast.AsyncWith)):
+        tgts = [i.optional_vars for i in a.items if i.optional_vars is not None]
+    for e in _header_exprs(n):
+        tgts.extend(x.target for x in walk(e) if isinstance(x, ast.NamedExpr))
+    return any(isinstance(x, ast.Name) and x.id == name for t in tgts for x in walk(t))
+
+
+@rule(P, "D17.8", "T-PATHS", floor=4)
+def d17_8(ctx):
+    """A packet object is sent at most once per construction (a connected packet takes its count when it is constructed, so the
+    same object sent again carries the count of the message before it): from every `self.send(x)` / `super().send(x)` in a
+    driver method, no path - normal or exceptional, around a loop or into a handler - reaches a send of the same name without
+    passing a statement that rebinds the name."""
+    drv = ctx.model.cls(f"{CD}:CIPDriver")
+    n_sites = 0
+    for c in ctx.model.subclasses(drv):
+        for mname, m in sorted(c.methods.items()):
+            calls = [x for x in walk(m) if isinstance(x, ast.Call) and isinstance(x.func, ast.Attribute) and x.func.attr == "send" and x.args and isinstance(x.args[0], ast.Name)
+                     and (atom_name(x.func.value) == "self" or (isinstance(x.func.value, ast.Call) and call_name(x.func.value) == "super")) and enclosing_func(x) is m]
+            if not calls:
+                continue
+            g = ctx.cfg(m)
+            where = {}
+            for n in g.nodes:
+                for e in _header_exprs(n):
+                    for x in walk(e):
+                        if any(x is c_ for c_ in calls):
+                            where.setdefault(n, []).append(x)
+            for start, cs in sorted(where.items(), key=lambda kv: kv[0].id):
+                for call in cs:
+                    name = call.args[0].id
+                    n_sites += 1
+                    key = ckey(f"{c.key}.{mname}", f"sent-once:{name}@{sorted(x.id for x in where).index(start.id)}")
+                    # paths carry the names last assigned None: a loop flag (`offset = None` under `while offset is not None`) closes the loop
+                    seen, todo, hit = set(), [(s, frozenset()) for s, _ in start.succ], None
+                    if _binds(start, name):
+                        todo = []  # e.g. `request = self.send(request)`: the name no longer denotes the packet
+                    while todo and hit is None:
+                        n, nulls = todo.pop()
+                        if (n, nulls) in seen:
+                            continue
+                        seen.add((n, nulls))
+                        again = [x for x in where.get(n, []) if x.args[0].id == name]
+                        if isinstance(n.ast, (ast.For, ast.AsyncFor)) and _binds(n, name):
+                            continue  # the loop header draws a new item into the name
+                        if again:
+                            hit = (n, again[0])
+                            break
+                        if _binds(n, name):
+                            continue
+                        a = n.ast
+                        if isinstance(a, ast.Assign) and len(a.targets) == 1 and isinstance(a.targets[0], ast.Name):
+                            v = a.targets[0].id
+                            nulls = nulls | {v} if isinstance(a.value, ast.Constant) and a.value.value is None else nulls - {v}
+                        else:
+                            nulls = frozenset(v for v in nulls if not _binds(n, v))
+                        only = None
+                        t = a.test if isinstance(a, (ast.While, ast.If)) else a
+                        if n.kind == "test" and isinstance(t, ast.Compare) and len(t.ops) == 1 and isinstance(t.left, ast.Name) and t.left.id in nulls \
+                                and isinstance(t.comparators[0], ast.Constant) and t.comparators[0].value is None and isinstance(t.ops[0], (ast.Is, ast.IsNot)):
+                            only = isinstance(t.ops[0], ast.Is)
+                        todo.extend((s, nulls) for s, lab in n.succ if only is None or lab not in (True, False) or lab is only)
+                    if hit is None:
+                        ctx.ok(key, call, f"`{name}` is sent here and not again before it is rebound", method=f"{c.name}.{mname}")
+                    else:
+                        ctx.violation(key, call, f"{c.name}.{mname}: the packet `{name}` sent at line {call.lineno} reaches the send at line {hit[1].lineno} without being rebuilt: "
+                                      "the second message carries the same sequence count as the first", method=f"{c.name}.{mname}", again_line=hit[1].lineno)
+    if n_sites == 0:
+        ctx.undecided(ckey(drv.key, "sent-once"), drv.node, "no send of a named packet found in the driver classes")
